@@ -173,7 +173,7 @@ class Ctx:
                             % (spec_rel, cfg_rel, rc))
         gen, dist = int(m.group(1)), int(m.group(2))
         cov = {}
-        for mm in re.finditer(r"^<(\w+) line \d+, col \d+ to line \d+, col \d+ of module \w+>: (\d+):(\d+)", text, re.M):
+        for mm in re.finditer(r"^<(\w+) line \d+, col \d+ to line \d+, col \d+ of module \w+(?: \([\d ]+\))?>: (\d+):(\d+)", text, re.M):
             cov[mm.group(1)] = cov.get(mm.group(1), 0) + int(mm.group(3))
         for a in must_cover:
             if cov.get(a, 0) == 0:
